@@ -1,4 +1,242 @@
+import Spok.Lemmas.EnvTemplate
+import Spok.Lemmas.EnvMerge
+import Spok.Lemmas.PathBasic
 import Spok.Judge.Env
-/-! # Property C13 — theorems (under construction) -/
+/-! # Property C13 — variables reach commands with their spokfile value, by template and by environment
+
+Statements are about the model `Spok.Env` (`expand`, `evalRhs`, `load`, `mergeEnv`, `lookup`); the tie to the real
+binary is the correspondence run of `bin/check C13` (`spok --vars`, and the `cmd` / `stdout` fields of `spok --json`).
+
+A command is seen as a list of pieces — single characters of ordinary text and references `{{.NAME}}`;
+`render` is its source text, `subst vars` the direct textual substitution. -/
 namespace Spok.Props.C13
+open Spok.Clean (Str isAbs CleanAbs)
+open Spok.Env
+
+/-! ## the template clause -/
+
+/-- **C13_template.** For every command text in the subset (any well-formed mix of text and `{{.NAME}}`),
+    template expansion is the direct textual substitution. -/
+theorem C13_template (vars : Vars) (ps : List Piece) (h : WF ps) :
+    expand vars (render ps) = .ok (subst vars ps) := by
+  simp [expand, tokenise_render h]
+
+/-- … and that is all the model accepts: whenever `expand` succeeds the command *is* such a mix and the
+    result is its substitution (everything else is rejected as unmodelled, never silently altered). -/
+theorem C13_template_only (vars : Vars) (cmd out : Str) (h : expand vars cmd = .ok out) :
+    ∃ ps, WF ps ∧ render ps = cmd ∧ out = subst vars ps := by
+  unfold expand at h
+  split at h
+  · simp at h
+  · rename_i ps hps
+    obtain ⟨h1, h2⟩ := render_tokenise hps
+    simp at h
+    exact ⟨ps, h2, h1, h.symm⟩
+
+/-- every occurrence of a reference to a defined variable is replaced by exactly its value … -/
+theorem C13_ref_replaced (vars : Vars) (n v : Str) (rest : List Piece) (hv : get vars n = some v) :
+    subst vars (.ref n :: rest) = v ++ subst vars rest := by
+  simp [subst, value, hv]
+
+/-- … a name that is not defined (yet) prints as text/template prints a missing map key … -/
+theorem C13_ref_missing (vars : Vars) (n : Str) (rest : List Piece) (hv : get vars n = none) :
+    subst vars (.ref n :: rest) = noValue ++ subst vars rest := by
+  simp [subst, value, hv]
+
+/-- … all other command text reaches the shell unchanged (text before, between and after references) … -/
+theorem C13_text_untouched (vars : Vars) (t : Str) (rest : List Piece) :
+    subst vars (chs t ++ rest) = t ++ subst vars rest := subst_chs vars t rest
+
+/-- … and a value is not expanded again: whatever it contains (for instance `{{.Y}}` or `$Y`), the command
+    `before{{.n}}after` becomes `before ++ value ++ after`. -/
+theorem C13_not_reexpanded (vars : Vars) (n v before after : Str) (hn : ValidName n)
+    (hb : WF (chs before ++ [.ref n])) (ha : WF (chs after)) (hv : get vars n = some v) :
+    expand vars (before ++ refText n ++ after) = .ok (before ++ v ++ after) := by
+  have hwf : WF (chs before ++ (.ref n :: chs after)) := by
+    clear hv
+    induction before with
+    | nil => exact ⟨hn, ha⟩
+    | cons c cs ih =>
+      obtain ⟨h1, h2⟩ := hb
+      refine ⟨?_, ih h2⟩
+      intro hc
+      apply h1
+      refine ⟨hc.1, ?_⟩
+      have := hc.2
+      simp only [chs] at this ⊢
+      cases cs with
+      | nil => simp [render, refText]
+      | cons d ds => simpa [render] using this
+  have hr : render (chs before ++ (.ref n :: chs after)) = before ++ refText n ++ after := by
+    rw [render_chs]
+    simp only [render]
+    have := render_chs after []
+    simp only [List.append_nil, render] at this
+    rw [this]
+    simp
+  have hs : subst vars (chs before ++ (.ref n :: chs after)) = before ++ v ++ after := by
+    rw [subst_chs, C13_ref_replaced vars n v _ hv]
+    have := subst_chs vars after []
+    simp only [List.append_nil, subst] at this
+    rw [this]
+    simp
+  rw [← hr, ← hs]
+  exact C13_template vars _ hwf
+
+/-! ## what a task sees: the variables defined earlier -/
+
+/-- a task is loaded with its commands expanded against the variables assigned *before* it in the file -/
+theorem C13_defined_earlier (cwd : Str) (t : TaskSrc) (rest : List Stmt) (f f' : File)
+    (h : loadAux cwd (.task t :: rest) f = .ok f') :
+    ∃ cs, expandAll f.vars t.commands = .ok cs ∧ (⟨t.name, cs, f.vars⟩ : Loaded) ∈ f'.tasks := by
+  unfold loadAux at h
+  split at h
+  · simp at h
+  · rename_i cs hcs
+    split at h
+    · simp at h
+    · exact ⟨cs, hcs, loadAux_tasks_mono h _ (by simp)⟩
+
+/-- an assignment makes the variable have that value from then on (until it is assigned again) -/
+theorem C13_assignment (vs : Vars) (n v : Str) : get (set vs n v) n = some v ∧
+    ∀ m, m ≠ n → get (set vs n v) m = get vs m :=
+  ⟨get_set_same vs n v, fun _ hm => get_set_other vs v hm⟩
+
+/-! ## values -/
+
+/-- **C13_string_value.** A string variable's value is the text of the literal, unchanged. -/
+theorem C13_string_value (cwd v : Str) : evalRhs cwd (.str v) = .ok v := rfl
+
+/-- **C13_join.** `join(...)` is the absolute, cleaned join of its arguments: `filepath.Abs ∘ filepath.Join`,
+    and (for an absolute working directory) the result is absolute and clean. -/
+theorem C13_join (cwd : Str) (args : List Str) (hc : isAbs cwd = true) :
+    evalRhs cwd (.join args) = .ok (Clean.abs cwd (Clean.join args)) ∧
+    CleanAbs (Clean.abs cwd (Clean.join args)) :=
+  ⟨rfl, Clean.cleanAbs_abs hc _⟩
+
+/-- **C13_exec.** `exec(cmd)` is the recorded stdout with surrounding whitespace trimmed; a non-zero status is
+    an error (and so is any number of arguments other than one). -/
+theorem C13_exec (cwd c out : Str) (st : Nat) :
+    evalRhs cwd (.exec [c] ⟨out, st⟩) = (if st = 0 then .ok (trim out) else .error (.execFailed st)) := by
+  simp [evalRhs, execBuiltin]
+
+/-- `trim` removes exactly the surrounding whitespace: the text is `l ++ trim s ++ r` with `l`, `r` all
+    whitespace, and `trim s` neither starts nor ends with whitespace. -/
+theorem C13_trim_spec (s : Str) : ∃ l r, s = l ++ trim s ++ r ∧ l.all isSpace = true ∧ r.all isSpace = true ∧
+    (∀ c, (trim s).head? = some c → isSpace c = false) ∧
+    (∀ c, (trim s).getLast? = some c → isSpace c = false) := by
+  obtain ⟨l, h1, h2, h3⟩ := trimLeft_spec s
+  obtain ⟨r, g1, g2, g3⟩ := trimRight_spec (trimLeft s)
+  refine ⟨l, r, ?_, h2, g2, ?_, g3⟩
+  · unfold trim
+    rw [List.append_assoc, ← g1]
+    exact h1
+  · intro c hc
+    -- the first character of the trimmed text is the first character of `trimLeft s`
+    apply h3 c
+    unfold trim at hc
+    rw [g1]
+    cases ht : trimRight (trimLeft s) with
+    | nil => rw [ht] at hc; simp at hc
+    | cons a t => rw [ht] at hc; simpa using hc
+
+/-- a failing exec makes loading the file fail -/
+theorem C13_exec_failure_is_error (cwd n c out : Str) (st : Nat) (hst : st ≠ 0) (rest : List Stmt) (f : File) :
+    loadAux cwd (.decl n (.exec [c] ⟨out, st⟩) :: rest) f = .error (.execFailed st) := by
+  simp [loadAux, evalRhs, execBuiltin, hst]
+
+/-! ## the environment clause -/
+
+/-- **C13_env.** Every variable of the loaded spokfile is in each command's environment with its spokfile
+    value — for every ambient environment, every `.env` content and every order in which the Go map hands
+    the variables out. -/
+theorem C13_env (cwd : Str) (stmts : List Stmt) (f : File) (ambient dotenv spokVars : EnvList) (k v : Str)
+    (hl : load cwd stmts = .ok f) (hp : IsEnvOf spokVars f.vars) (hk : get f.vars k = some v) :
+    lookup (mergeEnv ambient dotenv spokVars) k = some v := by
+  have hn : NodupKeys spokVars := nodupKeys_perm hp (load_nodup hl)
+  have hm : (k, v) ∈ spokVars := hp.mem_iff.2 (mem_of_get_eq_some hk)
+  unfold mergeEnv
+  rw [lookup_append, lookup_eq_some_of_mem hn hm]
+
+/-- the same for any duplicate-free map of variables -/
+theorem C13_env_map (vs : Vars) (ambient dotenv spokVars : EnvList) (k v : Str)
+    (hn : NodupKeys vs) (hp : IsEnvOf spokVars vs) (hk : get vs k = some v) :
+    lookup (mergeEnv ambient dotenv spokVars) k = some v := by
+  have hn' : NodupKeys spokVars := nodupKeys_perm hp hn
+  have hm : (k, v) ∈ spokVars := hp.mem_iff.2 (mem_of_get_eq_some hk)
+  unfold mergeEnv
+  rw [lookup_append, lookup_eq_some_of_mem hn' hm]
+
+/-- names the spokfile does not define come from the process: the ambient value if there is one
+    (`godotenv.Load` never overrides) -/
+theorem C13_env_ambient (ambient dotenv spokVars : EnvList) (k w : Str)
+    (hk : k ∉ keys spokVars) (ha : lookup ambient k = some w) :
+    lookup (mergeEnv ambient dotenv spokVars) k = some w := by
+  unfold mergeEnv loadDotenv
+  rw [lookup_append, lookup_none_of_not_key hk, lookup_append]
+  have hkey := hasKey_of_lookup ha
+  have : k ∉ keys ((dotenvMap dotenv).filter (fun p => !hasKey ambient p.1)) := by
+    intro hm
+    simp only [keys, List.mem_map, List.mem_filter] at hm
+    obtain ⟨⟨k', v'⟩, ⟨_, hnot⟩, hkk⟩ := hm
+    simp only at hkk
+    subst hkk
+    simp [hkey] at hnot
+  rw [lookup_none_of_not_key this]
+  simp [ha]
+
+/-! ## non-vacuity -/
+
+section Examples
+
+private def X : Str := ['X']
+private def Y : Str := ['Y']
+/-- `X := "a {{.Y}} $Y"`, `Y := ""` (a value that looks like a reference, and an empty one) -/
+private def vars : Vars := set (set [] X ['a', ' ', '{', '{', '.', 'Y', '}', '}', ' ', '$', 'Y']) Y []
+
+private theorem validX : ValidName X := ⟨⟨'X', [], rfl, by decide⟩, by decide⟩
+private theorem validY : ValidName Y := ⟨⟨'Y', [], rfl, by decide⟩, by decide⟩
+
+/-- `echo {{.X}}|{{.Y}}|{{.Z}} {` : the value of X is not expanded again, the empty Y leaves nothing, the
+    undefined Z prints `<no value>`, the lone `{` stays -/
+example : expand vars (render [.ch 'e', .ch 'c', .ch 'h', .ch 'o', .ch ' ', .ref X, .ch '|', .ref Y, .ch '|', .ref ['Z'], .ch ' ', .ch '{']) =
+    .ok (['e', 'c', 'h', 'o', ' '] ++ ['a', ' ', '{', '{', '.', 'Y', '}', '}', ' ', '$', 'Y'] ++ ['|'] ++ [] ++ ['|'] ++
+      noValue ++ [' ', '{']) := by
+  rw [C13_template]
+  · rfl
+  · exact ⟨by decide, by decide, by decide, by decide, by decide, validX, by decide, validY, by decide,
+      ⟨⟨'Z', [], rfl, by decide⟩, by decide⟩, by decide, by decide, trivial⟩
+
+/-- the hypotheses of `C13_not_reexpanded` are satisfiable -/
+example : expand vars (['a', '='] ++ refText X ++ [';']) = .ok (['a', '='] ++ ['a', ' ', '{', '{', '.', 'Y', '}', '}', ' ', '$', 'Y'] ++ [';']) :=
+  C13_not_reexpanded vars X _ ['a', '='] [';'] validX
+    ⟨by decide, by decide, validX, trivial⟩ ⟨by decide, trivial⟩ (by decide)
+
+/-- `{{{.X}}` is not in the subset (text/template reads the action from the leftmost `{{`) -/
+example : expand vars ['{', '{', '{', '.', 'X', '}', '}'] = .error .unmodelled := by
+  simp [expand, tokenise_other]
+
+/-- the D9 situation: `FOO := "s"`, ambient `FOO=a`, `.env` has `FOO=d`: the command sees `s` -/
+example : lookup (mergeEnv [(['F'], ['a']), (['H'], ['h'])] [(['F'], ['d'])] [(['F'], ['s'])]) ['F'] = some ['s'] := by decide
+
+/-- an ambient name beats the `.env` file, the `.env` file supplies names the process lacks -/
+example : lookup (mergeEnv [(['A'], ['1'])] [(['A'], ['2']), (['B'], ['3'])] []) ['A'] = some ['1'] ∧
+    lookup (mergeEnv [(['A'], ['1'])] [(['A'], ['2']), (['B'], ['3'])] []) ['B'] = some ['3'] := by decide
+
+/-- a file that loads, with a variable equal to `""`, one defined after the task, and its environment -/
+example : ∃ f, load ['/', 'p'] [.decl ['E'] (.str []), .task ⟨['t'], [['e', 'c', 'h', 'o']]⟩, .decl ['L'] (.str ['l'])] = .ok f ∧
+    get f.vars ['E'] = some [] ∧ get f.vars ['L'] = some ['l'] := by
+  refine ⟨⟨[(['E'], []), (['L'], ['l'])], [⟨['t'], [['e', 'c', 'h', 'o']], [(['E'], [])]⟩]⟩, ?_, by decide, by decide⟩
+  simp [load, loadAux, evalRhs, expandAll, expand, Env.set, tokenise_ch, tokenise_nil, Except.map, subst]
+
+/-- `join("a", "..", "b")` from `/p` is `/p/b`; `join()` is the working directory -/
+example : evalRhs ['/', 'p'] (.join [['a'], ['.', '.'], ['b']]) = .ok ['/', 'p', '/', 'b'] ∧
+    evalRhs ['/', 'p'] (.join []) = .ok ['/', 'p'] := ⟨rfl, rfl⟩
+
+/-- `exec`: trimmed output, failing status -/
+example : evalRhs [] (.exec [['x']] ⟨[' ', '\t', 'h', ' ', 'i', '\n', '\n'], 0⟩) = .ok ['h', ' ', 'i'] ∧
+    evalRhs [] (.exec [['x']] ⟨['o'], 3⟩) = .error (.execFailed 3) := ⟨rfl, rfl⟩
+
+end Examples
+
 end Spok.Props.C13
